@@ -28,12 +28,13 @@ LEVEL_TEXT = ('The refinement that produces the canonical atom classes (`_morgan
               'The string writer and the set-order branches of the stereo-aware refinement are heuristic code with two recorded gaps, so the '
               'unconditional invariance of the string is false and is not a theorem; that part is decided run by run by '
               'comparing the real code\'s canonical strings, equality and hashes across renumberings and across two '
-              'independent writers\' spellings, inside the claimed domain (independent symmetry oracle).')
+              'independent writers\' spellings (incl. ring-closure direction marks at the opening / closing / both digits, explicit bonds and hydrogens, two-digit ring numbers; configuration judged independently by the other toolkit\'s canonical isomeric SMILES of the re-written string), inside the claimed domain (independent symmetry oracle). '
+              'On candidates with pairwise different weights the two choice points of the writer model (start atom, sorted front) are proved independent of set order, BFS distance and numbering; the rest of the factoring hypothesis for the string is still a hypothesis.')
 LEVEL_NOTE = ('Lean kernel; hand transcription Model/Morgan.lean validated by exact correspondence (not derived from the Python '
               'text); Py/Hash.lean model of CPython tuple/int hash validated on every value compared; the writer `_smiles` and '
               'the set-iteration-order branches of `_chiral_morgan` (ring groups; test on group[0] not uniform over a group) are outside the Lean model (relational validation only); RDKit is used as an independent '
               'spelling source and symmetry oracle only.')
-TECHNIQUE = 'Lean 4 equivariance theorems over an executable Morgan model + exact correspondence + relational validation of canonical strings'
+TECHNIQUE = 'Lean 4 equivariance / naturality theorems over an executable model of the Morgan and stereo-aware refinement (incl. cumulenes, cis/trans and allene differentiation) + exact correspondence + relational validation of canonical strings across renumberings, histories and two toolkits\' spellings with an independent configuration oracle'
 HAS_DRIVER = True
 EXTRA_MODULES = []
 FINDINGS_MODULE = 'ChythonModel.Findings.C01'
